@@ -4,6 +4,7 @@ package chk
 func AllRules() []*Rule {
 	var rs []*Rule
 	rs = append(rs, lockRules()...)
+	rs = append(rs, errRules()...)
 	return rs
 }
 
@@ -18,5 +19,16 @@ func init() {
 	Props["C06"] = PropInfo{
 		Explanation: "Static rules over the resolved program (SSA + VTA call graph) decide the structural necessary conditions of the SHARED-lock interval: every exported sqlittle.DB method that reaches a pager.page implementation brackets all page-reaching calls between a tested RLock and a deferred RUnlock on the same handle (LOCK-1); RUnlock has no other caller and the driver reads only through those methods (LOCK-2); RLock invalidates cached state (LOCK-3); the unix pager requests SQLite's pending byte then shared range, non-blocking, returns both errors, releases the pending byte by defer on every exit and records/clears the shared lock correctly (PAGER); descriptors of the database file are not closed behind another handle's back (LOCK-6, known finding).",
 		NotDecided:  "Behaviour of other processes, lock state as observed from outside, the Windows pager (not demonstrable here); the rules decide that sqlittle requests and releases the right byte ranges on the right paths.",
+	}
+}
+
+func init() {
+	Props["C12"] = PropInfo{
+		Explanation: "ERR-1/ERR-2 enumerate every error-returning call and every error test in the API-reachable functions of db, the root package and the driver, and decide by SSA value-flow (locals, captured cells, struct fields, fmt.Errorf) and path enumeration that no error value is dropped or tested-and-swallowed; SKIP-1 decides that no scan adapter of the root package can return `continue` without having delivered the row or recorded an error.",
+		NotDecided:  "That every failure produces an error value in the first place (e.g. a short read that happens to parse); the rules show that no code path loses an error value that exists.",
+	}
+	Props["C17"] = PropInfo{
+		Explanation: "DONE-1..3 decide, on the SSA of every b-tree iteration level and adapter, that the done flag of an inner iteration is returned as-is or leads straight to a return of true with no intervening call, that adapters return the user callback's answer, and that top-level scans return only the iteration's error; LOCK-1 shows that the unlock is deferred and so covers the early return.",
+		NotDecided:  "That the traversal itself enumerates rows in the right order (C01/C02's traversal rules); nothing else data-dependent is needed.",
 	}
 }
